@@ -46,11 +46,21 @@ static inline cstring *cstring__lit(const char *p) { g_lit.len = 5; g_lit.id = _
    (null = end()); operator[](k) returns the mapped value of that entry, inserting a new entry (size + 1) if there was none.
    Whether k is present is arbitrary but consistent between the find and the operator[] of one add call (ghost umap_present). */
 _Bool umap_present;
+_Bool nondet_bool(void);
+#ifdef UMAP_ANY_KEY   /* reader side: every operator[] may meet a new or an existing key */
+#define UMAP_REDRAW umap_present = nondet_bool();
+#else
+#define UMAP_REDRAW
+#endif
 #define DECL_UMAP(N, K, V) DECL_SEQ_(umap_, N, struct pair_##N) \
   static inline struct pair_##N *umap_##N##__find(struct umap_##N *s, K *k) { \
     if (!umap_present) return (struct pair_##N *)0; \
     struct pair_##N fresh; fresh.first = *k; umap_##N##__cur = fresh; return &umap_##N##__cur; } \
+  static inline struct pair_##N *umap_##N##__begin(struct umap_##N *s) { \
+    if (s->n == 0) return (struct pair_##N *)0; \
+    struct pair_##N fresh; umap_##N##__cur = fresh; return &umap_##N##__cur; } \
   static inline V *umap_##N##__index(struct umap_##N *s, K *k) { \
+    UMAP_REDRAW \
     if (!umap_present) { s->n++; umap_present = 1; } \
     struct pair_##N fresh; fresh.first = *k; umap_##N##__cur = fresh; return &umap_##N##__cur.second; }
 #define DECL_PAIR(N, A, B) struct pair_##N { A first; B second; };
